@@ -38,7 +38,12 @@ func (c *Ctx) rulePrune(pkgs ...string) {
 					return
 				}
 				prunes++
-				guards := P.Expand(P.BlockGuards(b))
+				guards := P.BlockGuards(b)
+				if _, isC := constBool(r.Results[0]); !isC {
+					// `return !pred(...)`: the walk is pruned exactly when the returned expression is false
+					guards = append(append([]Lit{}, guards...), literals(P.condFormula(r.Results[0], 0), false)...)
+				}
+				guards = P.Expand(guards)
 				if pkg == "testonly" {
 					// allowed: case *ast.FuncDecl with isInTestOnlyContext(ctx, thatNode) true
 					okKind, okCtx := false, false
@@ -71,7 +76,7 @@ func (c *Ctx) rulePrune(pkgs ...string) {
 							}
 						}
 					}
-					if okKind && okCtx && isConstFalse(r.Results[0]) {
+					if okKind && okCtx {
 						c.ok("PRUNE", name+"#testonly-funcdecl", P.Pos(r.Pos()), "descent stops only below a FuncDecl that is itself @testonly")
 						return
 					}
